@@ -223,7 +223,7 @@ theorem agree_byConstituency {sP : Sig} {P P' : Sem} {app app' : App Sem} {pre p
     (happ : AgreeApp app app') (hpre : AgreePre pre pre' preSeats) :
     Agree allSig (byConstituencyImpl sP.prev preSeats P app pre) (byConstituencyLaw P' app' pre') := by
   intro a
-  simp only [byConstituencyImpl, byConstituencyLaw, district_eq hP hs hpm, apportion_eq happ]
+  simp only [byConstituencyImpl, byConstituencyLaw, allowedLaw, districtsLaw, assemble, district_eq hP hs hpm, apportion_eq happ]
   cases hpre with
   | none b => simp [Args.restrict, allSig, Args.noExt] <;> rfl
   | @some sQ Q Q' hQ =>
